@@ -12,7 +12,10 @@ META = {
                  "filter (JSON with/without ...IsRegex keys, DLF alone with every element / DLF with only its own elements as "
                  "2nd or 3rd filter of a file after fully specified other filters, dlt-convert list, "
                  "ECU:APID:CTID through the `adlt convert --eac` binary, public fields) incl. the to_json/from_json round "
-                 "trip; observations that differ from TLC's prediction, a random sample of the others and seeded random "
+                 "trip; messages with real payloads (all verbose argument kinds, non-verbose data) whose text is the one the code base "
+                 "renders, with search texts cut out of that text (lengths below, equal to, above the raw payload length; plain, "
+                 "ignore-case, regex, negated; JSON, DLF, public fields, the stream filter; text rendered on demand / already present); "
+                 "observations that differ from TLC's prediction, a random sample of the others and seeded random "
                  "filters/messages are validated by TLC against the contract FilterTrace.tla",
     "design_ref": "DESIGN.md section 6, C11",
     "level_text": "Exhaustive within bounds on the model: every criterion alone over its full variant set x the full field "
@@ -180,7 +183,8 @@ def check(ctx):
     info = drive(binp, ["--scenarios", scn, "--seed", str(ctx.seed), "--random", str(nrand), "--random-msgs", "10" if quick else "12",
                         "--random-eac", "30" if quick else "300", "--sample", "200" if quick else "600",
                         "--adlt", adlt, "--tmp", tmp, "--eac-max", "80" if quick else "1500",
-                        "--nchars", "3" if quick else "4", "--drift-cap", "0" if quick else "12"], trace)
+                        "--nchars", "3" if quick else "4", "--drift-cap", "0" if quick else "12",
+                        "--real-payload", "10" if quick else "30"], trace)
     st = info["stats"]
     if not st.get("cases_dlfa") or not st.get("cases_dlf"):
         raise c.ToolError("vacuity: no DLF case (alone with all elements / minimal after fully specified other filters)")
@@ -213,6 +217,39 @@ def check(ctx):
     for evs in cases.values():
         for e in evs:
             evk[e["ev"]] = evk.get(e["ev"], 0) + 1
+    # messages with real payloads: search texts cut out of the text the code base renders, both states of the message text
+    real = {"cases": 0, "cases_via_filter_as_streams": 0, "decides_text_rendered_on_demand": 0, "decides_text_already_present": 0,
+            "plain_search_text_longer_than_raw_payload_contained_on_demand": 0, "plain_search_text_longer_than_raw_payload_contained_present": 0,
+            "search_text_longer_than_raw_payload": 0, "negated": 0, "ignore_case": 0, "regex": 0, "front_ends": {}}
+    for evs in cases.values():
+        h = evs[0]["hdr"]
+        if h.get("src") != "real-payload":
+            continue
+        f = h["f"]
+        real["cases"] += 1
+        real["cases_via_filter_as_streams"] += h.get("via") == "filter_as_streams"
+        real["front_ends"][h["fe"]] = real["front_ends"].get(h["fe"], 0) + 1
+        real["negated"] += f["not"]
+        real["ignore_case"] += f["pay"]["ic"]
+        real["regex"] += f["pay"]["k"] == "re"
+        for e in evs:
+            if e["ev"] != "decide":
+                continue
+            real["decides_text_already_present" if e["cached"] else "decides_text_rendered_on_demand"] += 1
+            if len(f["pay"]["w"]) > e["raw_len"]:
+                real["search_text_longer_than_raw_payload"] += 1
+                # coverage statistic about the inputs only (the verdict is TLC's): the search text occurs in the rendered text
+                if f["pay"]["k"] == "sub" and not f["pay"]["ic"] and h["needle"] in h["msgs"][e["mi"]]["rendered"]:
+                    real["plain_search_text_longer_than_raw_payload_contained_" + ("present" if e["cached"] else "on_demand")] += 1
+    for need in ("cases_via_filter_as_streams", "plain_search_text_longer_than_raw_payload_contained_on_demand",
+                 "plain_search_text_longer_than_raw_payload_contained_present", "negated", "ignore_case", "regex"):
+        if not real[need]:
+            raise c.ToolError("vacuity: real-payload cases: no %s" % need)
+    for fe in ("json", "dlf", "dlfa", "api"):
+        if not real["front_ends"].get(fe):
+            raise c.ToolError("vacuity: no real-payload case through front-end %s" % fe)
+    ctx.extra["real_payload"] = dict(real, messages=st.get("real_msgs", 0), messages_text_longer_than_raw=st.get("real_msgs_text_longer_than_raw", 0),
+                                     messages_skipped=st.get("real_msgs_skipped_text_not_printable_ascii", 0) + st.get("real_msgs_skipped_text_not_rendered", 0))
     ctx.extra["paths"] = {"type_bytes_covered": len(vmm_seen), "dlf_cases_minimal_filter_after_fuller_filters": st.get("cases_dlfa", 0),
                           "dlf_cases_alone_all_elements": st.get("cases_dlf", 0), "pairs_without_ext_header": noext, "pairs_negated": neg_pairs, "pairs_negated_matching": neg_match,
                           "pairs_disabled": disabled, "pairs_per_criterion_form": kinds, "trace_events": evk,
